@@ -61,6 +61,7 @@ def run(ctx):
     S.run(ss)
     SC.corr_sample(ctx, ss)
     SC.normalisation_oracle(ctx, ss)
+    SC.divergent_probe(ctx)
     SC.rng_entry_agreement(ctx, ss[:: 5], k=8)        # the Monte Carlo entry point: same numbers, same outcome, nothing redrawn
     SC.generic_scalar_guard(ctx, ss[:: 7], k=8)
     for s in ss:
